@@ -311,17 +311,6 @@ fn oracle_table(args: &[ArgO]) -> Vec<(u64, Vec<u128>, Vec<u8>)> {
                 t.push(e);
             }
         }
-        if a.ti & 0x200 != 0 && !a.raw.is_empty() {
-            let s = strip_nul(&a.raw);
-            if s.iter().any(|b| *b >= 0x80) && s.len() <= 4096 {
-                let key: Vec<u128> = s.iter().map(|b| *b as u128).collect();
-                for e in [(2u64, key.clone(), String::from_utf8_lossy(s).into_owned().into_bytes()), (3u64, key.clone(), w1252(s).into_bytes())] {
-                    if !t.contains(&e) {
-                        t.push(e);
-                    }
-                }
-            }
-        }
     }
     t
 }
@@ -1057,7 +1046,7 @@ fn generate(sink: &mut Sink, rng: &mut Rng, n: u64, thorough: bool) {
                 produced += 1;
             }
             // truncation: a few cuts of a small clean list
-            8..=10 => {
+            8..=9 => {
                 let vals = gen_vals(rng, 4, false, &mut notes);
                 let i0 = from_vals(rng, &vals, be, notes);
                 let len = field_positions(&vals, be).last().map(|f| f.1.last().unwrap().1).unwrap_or(0);
@@ -1070,7 +1059,7 @@ fn generate(sink: &mut Sink, rng: &mut Rng, n: u64, thorough: bool) {
                 }
             }
             // single-field corruption
-            11..=13 => {
+            10..=12 => {
                 let mut vals = gen_vals(rng, 4, false, &mut notes);
                 if vals.is_empty() {
                     vals.push(Val::UInt(2, 513));
@@ -1095,7 +1084,7 @@ fn generate(sink: &mut Sink, rng: &mut Rng, n: u64, thorough: bool) {
                 }
             }
             // arbitrary payloads
-            14..=17 => {
+            13..=16 => {
                 let p = gen_payload(rng, be);
                 let mut i = base_input(rng, be, Enc::Payload(lit(&p)));
                 i.noar = rng.next() as u8;
@@ -1248,9 +1237,9 @@ fn main() {
         corpus(&mut sink);
     }
     let n = a.count.unwrap_or(match a.tier.as_str() {
-        "quick" => 1100,
+        "quick" => 2000,
         "search" => 4000,
-        _ => 20000,
+        _ => 30000,
     });
     generate(&mut sink, &mut rng, n, thorough);
     sink.finish();
